@@ -529,7 +529,7 @@ def d5_private_callers(ctx):
                        f'{nm[1] if nm[0] == "lit" else nm}',
                        detail='an unguarded private writer is called with a name that is not one of '
                               'Darr\'s constant file names')
-    ctx.floor('C20 package-internal calls of private DataDir writers', n, 8)
+    ctx.floor('C20 package-internal calls of private DataDir writers', n, 6)
 
 
 def d6_protected_sets(ctx):
